@@ -100,6 +100,8 @@ pub struct RunCfg {
     pub est_len: u32,
     /// happens-before / lifetime monitors on
     pub monitors: bool,
+    /// enumerated freeze: (task, after this many own decisions, for this many global decisions)
+    pub freeze: Option<(usize, u64, u64)>,
 }
 
 impl Default for RunCfg {
@@ -116,6 +118,7 @@ impl Default for RunCfg {
             max_steps: 400_000,
             est_len: 200,
             monitors: true,
+            freeze: None,
         }
     }
 }
@@ -160,6 +163,8 @@ pub struct Task {
     pub probe_log: Vec<(u32, u64)>,
     /// harness-defined context tag (current op index) used for attribution
     pub ctx: u64,
+    /// scheduling decisions taken by this task itself
+    pub own_steps: u64,
 }
 
 #[derive(Clone, Debug, PartialEq)]
@@ -401,6 +406,7 @@ impl Exec {
             last_park_spurious: false,
             probe_log: Vec::new(),
             ctx: 0,
+            own_steps: 0,
         });
         let tp: *mut Task = &mut *t;
         let coro = Coroutine::with_stack(take_stack(), move |y: &Yielder<(), ()>, ()| {
@@ -587,6 +593,23 @@ impl Exec {
         Some(c)
     }
 
+    /// bookkeeping for the current task's own decision count, and the enumerated freeze (F3/F12):
+    /// task `t` is stalled for `dur` decisions once it has taken `after` decisions of its own
+    #[inline]
+    fn own_step(&mut self) {
+        let cur = self.current;
+        self.tasks[cur].own_steps += 1;
+        if let Some((t, after, dur)) = self.cfg.freeze {
+            if t == cur && self.tasks[cur].own_steps == after {
+                self.tasks[cur].stall_until = self.steps + dur;
+                self.stats.stalls += 1;
+                if self.tasks[cur].in_cs > 0 {
+                    self.stats.cs_freezes += 1;
+                }
+            }
+        }
+    }
+
     fn suspend_current(&mut self) {
         let y = self.tasks[self.current].yielder;
         debug_assert!(!y.is_null());
@@ -606,6 +629,7 @@ pub fn switch(yielding: bool) {
     e.steps += 1;
     e.events += 1;
     e.stats.steps += 1;
+    e.own_step();
     if e.steps > e.cfg.max_steps {
         e.abort_now(Abort::StepBound);
         e.suspend_current();
@@ -633,6 +657,7 @@ fn block_current() {
     e.steps += 1;
     e.events += 1;
     e.stats.steps += 1;
+    e.own_step();
     if e.steps > e.cfg.max_steps {
         e.abort_now(Abort::StepBound);
         e.suspend_current();
@@ -821,6 +846,10 @@ pub fn draw(bound: u64) -> u64 {
 
 pub fn steps() -> u64 {
     ex().map(|e| e.steps).unwrap_or(0)
+}
+
+pub fn own_steps() -> u64 {
+    ex().map(|e| e.tasks[e.current].own_steps).unwrap_or(0)
 }
 
 pub fn set_ctx(c: u64) {
